@@ -442,6 +442,30 @@ def _offset_eval(e: ast.expr, env: dict) -> Optional[Offset]:
         return _offset_eval(inner, env)
     if isinstance(e, ast.Name) and env.get(e.id) == "NODE_INDEX_CTX":
         return None
+    if isinstance(e, ast.Call) and isinstance(e.func, ast.Attribute) and isinstance(e.func.value, ast.Name) and e.func.value.id == "self" and callable(env.get("__resolve__")) \
+            and env.get("__depth__", 0) < 3:
+        # a method of the listener that reads an index:  self._read(ctx.node_index(0))  with  def _read(self, c): return int(c.getText()) [± k]
+        tgt = env["__resolve__"](e.func.attr)
+        if tgt is not None:
+            ps = [a.arg for a in tgt.node.args.args][1:]
+            env2 = {"__resolve__": env["__resolve__"], "__depth__": env.get("__depth__", 0) + 1}
+            for p_, a_ in zip(ps, e.args):
+                t_ = norm(a_)
+                if "node_index(" in t_ and "getText" not in t_ or (isinstance(a_, ast.Name) and env.get(a_.id) == "NODE_INDEX_CTX"):
+                    env2[p_] = "NODE_INDEX_CTX"
+                else:
+                    v_ = _offset_eval(a_, env)
+                    if v_ is not None:
+                        env2[p_] = v_
+            if len(env2) > 2:
+                for n in ast.walk(tgt.node):
+                    if isinstance(n, ast.Assign) and len(n.targets) == 1 and isinstance(n.targets[0], ast.Name):
+                        v_ = _offset_eval(n.value, env2)
+                        if v_ is not None:
+                            env2[n.targets[0].id] = v_
+                outs = [_offset_eval(r.value, env2) for r in ast.walk(tgt.node) if isinstance(r, ast.Return) and r.value is not None]
+                if outs and all(o is not None for o in outs) and len({o.k for o in outs}) == 1:
+                    return Offset(outs[0].k, e)
     return None
 
 
@@ -531,7 +555,7 @@ def r_codec(ctx) -> RuleResult:
                         res.fail(Finding("R-CODEC", mfi.module.rel, mfi.qualname, norm(n), f"label stored as string index{v.k:+d}", line=n.lineno))
     for name, mfi in lis.methods.items():
         if name.startswith(("enter", "exit")):
-            run_method(mfi, {})
+            run_method(mfi, {"__resolve__": lambda nm: repo.mro_method(lis, nm)})
     if n_par < 3:
         raise AnalysisError(f"R-CODEC: found only {n_par} parsed-index store sites in the listener (expected bond endpoints and attribute index)")
     # ---- parser: stable sort by atomic number, index = position
